@@ -39,6 +39,7 @@ Templates ==
       Either |-> RuleP(<<"p", "q">>, Ch2(Ref("p"), Ref("q"))),
       Maybe |-> RuleP(<<"p">>, Seq2(Opt(Ref("p")), Expect(Ref("p")))),
       Items |-> ClassP(<<"p">>, <<Field("items", Star(Ref("p"))), Field("tail", Opt(A1))>>),
+      Invoke |-> RuleP(<<"F", "x">>, Call("F", <<Pos(Ref("x"))>>)),        \* calls its own parameter with arguments
       Close |-> RuleP(<<"q">>, Where(Plus(B1), Lam("eq", "q"))),          \* a run equal to the (list) argument
       Word  |-> Rule(W) ]
 
@@ -91,7 +92,9 @@ Sites == <<
         Star(Ch2(Let("o", Plus(B1), Seq2(Plus(A1), Call("Close", <<P(Ref("o"))>>))), AnyAB)),
   (* 38 ... with the list arguments reversed / permuted *)
         Ch2(Let("o", Seq2(A1, B1), Right(Str(<<comma>>), Left(Call("Val", <<P(Ref("o"))>>), Str(<<comma>>)))),
-            Let("o", Seq2(Right(A1, B1), Expect(Str(<<comma>>)) ), Right(Str(<<comma>>), Call("Val", <<P(Ref("o"))>>))))
+            Let("o", Seq2(Right(A1, B1), Expect(Str(<<comma>>)) ), Right(Str(<<comma>>), Call("Val", <<P(Ref("o"))>>)))),
+  (* 39 higher-order: a template name passed as argument and called with arguments *)
+        Seq2(Call("Invoke", <<P(Ref("Wrap")), P(A1)>>), Opt(Call("Invoke", <<Kw("x", B1), Kw("F", Ref("Twice"))>>)))
 >>
 
 Grammar(i) == [rules |-> ("start" :> Rule(Sites[i])) @@ Templates, ign |-> <<>>, start |-> "start"]
